@@ -34,17 +34,17 @@ PER_CATEGORY_CAP = 6
 # ------------------------------------------------------------------ oracle helpers
 
 def same_decimals(a, b, nd):
-    """b equals a printed with nd decimals in scientific notation (half an unit of the last
-    decimal, plus a hair for the tie cases)."""
+    """b equals a printed with nd decimals in scientific notation: they differ by at most half a
+    unit of the last decimal (plus a few ulps, the granularity of a itself)."""
     if a is None or b is None:
         return a is None and b is None
     a, b = float(a), float(b)
     if a == b:
         return True
-    if a == 0.0:
+    if a == 0.0 or a != a or b != b:
         return False
     e = math.floor(math.log10(abs(a)))
-    return abs(a - b) <= 0.5000001 * 10.0 ** (e - nd)
+    return abs(a - b) <= 0.5 * 10.0 ** (e - nd) + 4 * math.ulp(a)
 
 
 def own_float(s):
@@ -71,19 +71,25 @@ def own_int(s):
     return int(t) if t else None
 
 
+def name_canon(name):
+    """The simulator reads a name as (a3, i2): canonical representative of the class of names
+    it cannot tell apart (same first three characters, last two identical or the same integer)."""
+    tail = name[3:]
+    try:
+        return (name[:3], int(tail))
+    except ValueError:
+        return (name[:3], tail)
+
+
 def name_equiv(fname, bname):
-    """The simulator reads a name as (a3, i2): two names denote the same block iff the first
-    three characters agree and the last two are identical or the same integer."""
     if len(fname) != 5 or len(bname) != 5:
         return False
-    if fname == bname:
-        return True
-    if fname[:3] != bname[:3]:
-        return False
-    try:
-        return int(fname[3:]) == int(bname[3:])
-    except ValueError:
-        return False
+    return fname == bname or name_canon(fname) == name_canon(bname)
+
+
+def zero_padded(name):
+    """letter-letter-letter-0-digit: a name the simulator prints back with a blank for the 0."""
+    return name[3] == '0' and name[4].isdigit() and not name[2].isdigit()
 
 
 def quirk_free(name):
@@ -144,8 +150,13 @@ def contract_file(snap, text, reset, cfg, rec, tag):
     nb = len(snap['blocks'])
     ok = True
 
+    reported = set()
+
     def bad(cat, what, inp=None):
-        rec.fail('%s %s' % (cat, tag), what, inp if inp is not None else cfg)
+        word = cat.split(' ')[0]
+        if word not in reported:                    # one report per category and case
+            reported.add(word)
+            rec.fail('%s %s' % (cat, tag), what, inp if inp is not None else cfg)
 
     if not text.endswith('\n'):
         bad('file-no-final-newline', 'file does not end with a newline')
@@ -254,11 +265,18 @@ def contract_reread(snap, snap1, reset, cfg, rec, tag):
     if len(n0) != len(n1):
         bad('block-count', '%d blocks written, %d read back' % (len(n0), len(n1)))
     if n0 != n1:
-        k = next((i for i, (x, y) in enumerate(zip(n0, n1)) if x != y), min(len(n0), len(n1)))
-        x = n0[k] if k < len(n0) else None
-        y = n1[k] if k < len(n1) else None
-        bad('block-name %r' % x, 'block %d is %r after the round trip, was %r' % (k, y, x),
-            block_input(cfg, b0[k]) if k < len(b0) else cfg)
+        cats = set()
+        for k in range(max(len(n0), len(n1))):
+            x = n0[k] if k < len(n0) else None
+            y = n1[k] if k < len(n1) else None
+            if x == y:
+                continue
+            cat = 'block-name-zero-padded' if (x is not None and y is not None and zero_padded(x) and name_equiv(x, y)) \
+                else 'block-name'
+            if cat not in cats:
+                cats.add(cat)
+                bad('%s %r' % (cat, x), 'block %d is %r after the round trip, was %r' % (k, y, x),
+                    block_input(cfg, b0[k]) if k < len(b0) else cfg)
     if not snap1['lookup_ok']:
         bad('lookup', 'name -> block dictionary disagrees with the ordered block list after reading')
     seen = set()
@@ -410,16 +428,22 @@ VALUE_STYLES = ['pressure', 'temperature', 'fraction', 'zero', 'short', 'negativ
 def make_spec(rnd, idx, tier, kind='main'):
     """A JSON-able description of an initial-condition set (this is the reproduction)."""
     big = tier == 'thorough'
-    conv = idx % 4
-    atm = (idx // 4) % 3
-    case = [None, 'u', 'l'][(idx // 12) % 3]
+    # the configuration product is enumerated from the case number, the rest is drawn
+    nvars = 1 + idx % 12
+    timing_present = (idx // 12) % 2 == 0
+    reset = (idx // 24) % 2 == 1
+    react = (idx // 48) % 2 == 1
+    conv = (idx // 96) % 4
+    atm = (idx // 384) % 3
+    case = rnd.choice([None, 'u', 'l'])
     src = 'convention'
-    if idx % 9 == 8:
+    if rnd.random() < 0.12:
         src = 'shipped-geometry'
     nblocks = rnd.choice([0, 1, 2, 3, 4, 7, 12, 25] + ([60, 150, 400] if big else [40]))
     if src == 'convention':
         # enough columns / layers for two- and three-digit numeric parts
-        nx, ny, nz = rnd.choice([(3, 2, 3), (4, 3, 12), (11, 10, 2), (12, 9, 11)])
+        # (convention 1 holds at most 99 nodes, convention 2 at most 999)
+        nx, ny, nz = rnd.choice([(3, 2, 3), (4, 3, 12), {0: (6, 5, 11), 1: (10, 8, 3), 2: (12, 9, 3), 3: (6, 5, 11)}[conv]])
         allnames = convention_names(conv, atm, case, nx, ny, nz)
         geo = {'names': 'mulgrid().rectangular', 'convention': conv, 'atmos_type': atm, 'case': case, 'nx': nx, 'ny': ny, 'nz': nz}
     else:
@@ -437,11 +461,10 @@ def make_spec(rnd, idx, tier, kind='main'):
             names = allnames[len(allnames) - nblocks:]
         else:
             names = [allnames[i] for i in sorted(rnd.sample(range(len(allnames)), nblocks))]
-    nvars = 1 + (idx // 36) % 12 if idx < 36 * 12 * 2 else rnd.randint(1, 12)
     styles = [rnd.choice(VALUE_STYLES) for _ in range(nvars)]
     pormode = rnd.choice(['none', 'exact', 'any', 'mixed'])
     seqmode = rnd.choice(['none', 'none', 'both', 'nseq', 'nadd', 'mixed'])
-    simulator = 'TOUGHREACT' if rnd.random() < 0.35 else 'TOUGH2'
+    simulator = 'TOUGHREACT' if react else 'TOUGH2'
     permmode = 'none'
     if simulator == 'TOUGHREACT':
         permmode = rnd.choice(['all', 'all', 'some'])
@@ -474,14 +497,13 @@ def make_spec(rnd, idx, tier, kind='main'):
             perm = [rnd.choice([1.e-15, 6.51e-14, 0.0, 1.23456789e-12, rnd.uniform(1., 10.) * 10.0 ** rnd.randint(-20, -9)]) for _ in range(3)]
         blocks.append({'name': nm, 'variable': var, 'porosity': por, 'permeability': perm, 'nseq': nseq, 'nadd': nadd})
     timing = None
-    if rnd.random() < 0.6:
+    if timing_present:
         wide = simulator == 'TOUGHREACT'
         timing = {'kcyc': rnd.choice([0, 1, 30, 99999] + ([999999, 100000] if wide else [])),
                   'iter': rnd.choice([0, 7, 145, 99999] + ([999999, 123456] if wide else [])),
                   'nm': rnd.choice([0, 1, 34, 999] + ([] if wide else [99999, 1000])),
                   'tstart': rnd.choice([0.0, 1.e9, rnd.uniform(0, 1e12)]),
                   'sumtim': rnd.choice([0.0, 1.06496e16, 52710.494, rnd.uniform(0, 1e17), 1.e-3, 9.9999999996e11])}
-    reset = rnd.random() < 0.4
     numvar = nvars if (nvars > 4 or rnd.random() < 0.5) else None
     return {'kind': kind, 'id': idx, 'geometry': geo, 'simulator': simulator, 'timing': timing, 'reset': reset,
             'num_variables': numvar, 'nvars': nvars, 'styles': styles, 'blocks': blocks, 'how': REPRO}
@@ -508,8 +530,9 @@ def spec_tag(spec):
     conv = 'conv%s' % g['convention'] if 'convention' in g else g['names'].split('/')[-1].split('.')[0]
     perm = 'perm' if any(b['permeability'] is not None for b in spec['blocks']) else 'noperm'
     t = 'notiming' if spec['timing'] is None else ('timing-reset' if spec['reset'] else 'timing-kept')
-    return '[%s %s %s %s nb=%d nv=%d numvar=%s #%d]' % (conv, spec['simulator'], perm, t, len(spec['blocks']), spec['nvars'],
-                                                       spec['num_variables'], spec['id'])
+    kind = '' if spec['kind'] == 'main' else spec['kind'] + ' '
+    return '[%s%s %s %s %s nb=%d nv=%d numvar=%s #%d]' % (kind, conv, spec['simulator'], perm, t, len(spec['blocks']),
+                                                         spec['nvars'], spec['num_variables'], spec['id'])
 
 
 def descriptor(spec):
@@ -517,7 +540,9 @@ def descriptor(spec):
     return (spec['kind'], spec_tag(spec).split(' #')[0],
             tuple(sorted(set(spec['styles']))),
             any(x['porosity'] is None for x in b), any(x['porosity'] is not None for x in b),
-            any(x['nseq'] is not None for x in b), any(x['nadd'] is not None for x in b))
+            any(x['nseq'] is not None for x in b), any(x['nadd'] is not None for x in b),
+            # names the simulator prints differently (digit-0-digit -> digit-blank-digit)
+            any(x['name'][2].isdigit() and x['name'][3] == '0' and x['name'][4].isdigit() for x in b))
 
 
 # ------------------------------------------------------------------ shipped files
@@ -569,10 +594,9 @@ def run_shipped(rel, numvar, nrec, rec, tmpdir):
     # duplicates in a file overwrite (dictionary semantics): compare against the last occurrence, in first-seen order
     order, last = [], {}
     for b in own['blocks']:
-        key = next((k for k in order if name_equiv(k, b['name'])), None)
-        if key is None:
-            order.append(b['name'])
-            key = b['name']
+        key = name_canon(b['name'])
+        if key not in last:
+            order.append(key)
         last[key] = b
     ownblocks = [last[k] for k in order]
     if len(ownblocks) != len(snap['blocks']):
@@ -640,9 +664,9 @@ def main():
     t0 = time.time()
     tmpdir = tempfile.mkdtemp(prefix='pytough-', dir='/var/tmp')
     try:
-        nmain = 3000 if tier == 'quick' else 60000
-        nside = 60 if tier == 'quick' else 600
-        chunk = 50 if tier == 'quick' else 250
+        nmain = 3456 if tier == 'quick' else 207360
+        nside = 60 if tier == 'quick' else 1200
+        chunk = 48 if tier == 'quick' else 480
         tasks = [('shipped', s, tier, seed, tmpdir) for s in SHIPPED]
         for lo in range(0, nmain, chunk):
             tasks.append(('gen', (lo, min(lo + chunk, nmain), 'main'), tier, seed, tmpdir))
